@@ -4,7 +4,9 @@
 cd "$(dirname "$0")/.."
 V=$(pwd); export GOFLAGS=-mod=mod GOPROXY=off GOSUMDB=off GOTOOLCHAIN=local
 bad=0
+k=0
 for f in selftest/refactors/*.patch; do
+  k=$((k+1)); [ $((k % ${STEP:-1})) -eq 0 ] || continue   # STEP=n: every n-th refactoring only
   scratch=$(mktemp -d /tmp/govc-scratch.XXXXXX); out=$(mktemp -d /tmp/govc-out.XXXXXX)
   git -C /repo archive HEAD | tar -x -C "$scratch"; cp known_findings.json "$out/"; cp -r known bounded "$out/"
   if ! (cd "$scratch" && git apply "$V/$f" 2>/dev/null && go build ./... 2>/dev/null); then echo "$(basename $f) PATCH-BROKEN"; rm -rf "$scratch" "$out"; continue; fi
